@@ -281,20 +281,7 @@ def collection_table(ctx: Ctx, I: Interp) -> None:
             continue
         ctx.check(is_resolved == dedup, "C10.dedup", f"dedup={dedup}: result is {'resolved' if dedup else 'the raw collection'}", where,
                   f"dedup={dedup} -> {short(v)}", f"with dedup={dedup} the result is {short(v)}")
-    # get_dependencies() without arguments reports the resolved list
-    for q_ in ("TagList.get_dependencies", "Tag.get_dependencies"):
-        f_ = prog.function(CORE, q_)
-        a_ = f_.args
-        dm = dict(zip([x.arg for x in a_.args][len(a_.args) - len(a_.defaults):], a_.defaults))
-        dm.update({x.arg: d for x, d in zip(a_.kwonlyargs, a_.kw_defaults) if d is not None})
-        dflt = None
-        try:
-            dflt = prog.fold(dm["dedup"], prog.core()) if "dedup" in dm else None
-        except Exception:
-            pass
-        ctx.check(dflt is True, "C10.dedup", f"{q_}() resolves by default (dedup=True)", f"{CORE}:{q_}", f"default dedup={dflt!r}",
-                  f"{q_}() called without arguments returns the unresolved collection (default dedup={dflt!r}): duplicates and lower versions are reported, "
-                  f"and HTMLDocument hoists them", witness="div(dep_v1, dep_v2).get_dependencies()")
+    dedup_defaults(ctx)
     # Tag.get_dependencies forwards dedup
     fn2 = prog.function(CORE, "Tag.get_dependencies")
     w2 = f"{CORE}:Tag.get_dependencies"
@@ -529,6 +516,59 @@ def _validate_tables(ctx: Ctx, I: Interp) -> None:
     ctx.min_count("_validate_dicts loop paths", n, 1)
 
 
+def dedup_defaults(ctx: Ctx, rule: str = "C10.dedup") -> None:
+    """get_dependencies() without arguments reports the resolved list."""
+    prog = ctx.prog
+    for q_ in ("TagList.get_dependencies", "Tag.get_dependencies"):
+        f_ = prog.function(CORE, q_)
+        a_ = f_.args
+        dm = dict(zip([x.arg for x in a_.args][len(a_.args) - len(a_.defaults):], a_.defaults))
+        dm.update({x.arg: d for x, d in zip(a_.kwonlyargs, a_.kw_defaults) if d is not None})
+        dflt = None
+        try:
+            dflt = prog.fold(dm["dedup"], prog.core()) if "dedup" in dm else None
+        except Exception:
+            pass
+        ctx.check(dflt is True, rule, f"{q_}() resolves by default (dedup=True)", f"{CORE}:{q_}", f"default dedup={dflt!r}",
+                  f"{q_}() called without arguments returns the unresolved collection (default dedup={dflt!r}): duplicates and lower versions are reported, "
+                  f"and HTMLDocument hoists them", witness="div(dep_v1, dep_v2).get_dependencies()")
+
+
+def render_reports_resolved(ctx: Ctx, I: Interp, rule: str = "C10.dedup") -> None:
+    """Tag.render / TagList.render (which also produce HTMLDocument.render's dependency list and what save_html copies) report
+    the *resolved* collection: get_dependencies is called with dedup left at its default or passed as True."""
+    prog = ctx.prog
+    for cls, kind in (("Tag", "TAG"), ("TagList", "TAGLIST")):
+        q = f"{cls}.render"
+        if not prog.has_function(CORE, q):
+            continue
+        where = f"{CORE}:{q}"
+        fn = prog.function(CORE, q)
+        cfg = Config()
+        cfg.opaque_all = True
+
+        def mk(run: Any, kind: str = kind, fn: Any = fn):
+            s = SObj("self", {kind})
+            return ({fn.args.args[0].arg: s}, s)
+
+        n = 0
+        for l in I.run_function(CORE, q, mk, cfg):
+            if l.kind != "return":
+                continue
+            for e in l.effects:
+                if e.kind == "call" and getattr(e.target, "qual", "").endswith(".get_dependencies"):
+                    n += 1
+                    kw = dict((e.extra or {}).get("kwargs") or {})
+                    pos = list(e.value or [])
+                    d = kw.get("dedup", pos[0] if pos else True)
+                    ctx.check(d is True and len(pos) <= 1 and set(kw) <= {"dedup"}, rule, f"{q} reports the resolved dependencies (dedup left on)", where,
+                              f"get_dependencies({', '.join([short(x) for x in pos] + [f'{k}={short(v)}' for k, v in kw.items()])})",
+                              f"{q} collects its dependencies with dedup={short(d)}: render()['dependencies'] (and with it HTMLDocument.render's list and the "
+                              f"directories save_html copies) contains superseded versions and duplicates, while the markup links only the resolved ones",
+                              witness="HTMLDocument(div(dep_v2, dep_v1)).save_html(f, include_version=False)")
+        ctx.require(n >= 1, f"{q} does not collect dependencies")
+
+
 def check(ctx: Ctx) -> None:
     ctx.explanation = (
         "Engine A over _resolve_dependencies: the loop body is summarised per (name seen?, ordering of new.version vs "
@@ -545,5 +585,6 @@ def check(ctx: Ctx) -> None:
     I = Interp(ctx.prog)
     resolve_table(ctx, I)
     collection_table(ctx, I)
+    render_reports_resolved(ctx, I)
     version_field(ctx)
     init_validation(ctx, I)
